@@ -10,7 +10,7 @@ LEVEL = "fault_enumeration"
 
 def run(tier, v):
     ex = fsx.Explorer()
-    names = ["S1", "S2", "S3", "S4", "S5", "S6", "S7"] + (["S5b"] if tier == "thorough" else [])
+    names = ["S1", "S2", "S3", "S4", "S5", "S6", "S7", "S10"] + (["S5b"] if tier == "thorough" else [])
     bound = 2 if tier == "thorough" else 1
     menu = {"kill", "fail", "short"}
     total_exec = 0
@@ -46,7 +46,7 @@ def run(tier, v):
 
     for n in names:
         sc = scenarios.ALL[n]()
-        this_bound = bound if n not in ("S5b",) else 1
+        this_bound = bound if n not in ("S5b", "S10") else 1
         base, nx, capped = ex.explore(sc, menu, this_bound, oracle)
         total_exec += nx
         edited = sum(1 for f, o in sc.source_bytes().items() if base.src.get(f) != o)
